@@ -342,14 +342,23 @@ Definition parse (g : regs) (bin : list N) : res regs := parse_from g bin 0 (len
 (* ------------------------------------------------------------------ configuration *)
 Inductive centry := CVal (v : value) | CFields (l : list (nat * value)).
 
-(* state after the failing step is kept: load_yml_config is not atomic *)
+(* state after the failing step is kept: load_yml_config is not atomic.
+   A value that value_to_int refuses raises SPSDKError; the handler of load_yml_config then calls
+   bitfield_val.replace(...), which is an AttributeError when the value is not a string. *)
+Definition cfg_scalar (v : value) : bool :=
+  match v with VInt _ | VStr _ | VBytes _ => true | _ => false end.
+
 Fixpoint load_fields (g : regs) (t : ref) (l : list (nat * value)) : regs * res unit :=
   match l with
   | [] => (g, Ok tt)
   | (k, v) :: rest =>
-      match f_set_enum g t k v true with
-      | Ok g' => load_fields g' t rest
-      | Err e => (g, Err e)
+      match t_field g t k with
+      | None => (g, Err E_NOTFOUND)
+      | Some _ =>
+          match f_set_enum g t k v true with
+          | Ok g' => load_fields g' t rest
+          | Err e => (g, Err (if cfg_scalar v then e else 2%N))
+          end
       end
   end.
 
@@ -462,11 +471,13 @@ Definition is_query (o : op) : bool :=
 
 (* snapshot of every observable value *)
 Definition vz (r : res Z) : value := vres VInt r.
-Fixpoint snap_fields (g : regs) (t : ref) (k : nat) (fs : list field) : list value :=
-  match fs with [] => [] | _ :: rest => vz (f_get g t k) :: snap_fields g t (S k) rest end.
+(* bit-field values are derived from one read of the register (this is f_get for every valid index) *)
+Definition snap_fields (rv : res Z) (fs : list field) : list value :=
+  map (fun f => vz (bind rv (fun v => field_of v f))) fs.
 Definition snap_target (g : regs) (t : ref) (s : sreg) : list value :=
-  [VInt (s_offset s); VInt (s_width s); vz (t_get g t true); vz (t_get g t false);
-   vnat (length (s_fields s)); VList (snap_fields g t 0 (s_fields s))].
+  let lv := t_get g t false in
+  [VInt (s_offset s); VInt (s_width s); vz (t_get g t true); vz lv;
+   vnat (length (s_fields s)); VList (snap_fields lv (s_fields s))].
 Fixpoint snap_subs (g : regs) (i j : nat) (l : list sreg) : list value :=
   match l with [] => [] | s :: rest => VList (snap_target g (Sub i j) s) :: snap_subs g i (S j) rest end.
 Fixpoint snap_regs (g : regs) (i : nat) (l : list reg) : list value :=
@@ -521,10 +532,39 @@ Definition step (init : regs) (g : regs) (o : op) : regs * value :=
 Fixpoint run (init g : regs) (ops : list op) : regs :=
   match ops with [] => g | o :: rest => run init (fst (step init g o)) rest end.
 
+(* equality of interchange values; used only to print the part of a snapshot that an operation changed *)
+Fixpoint value_eqb (a b : value) {struct a} : bool :=
+  match a, b with
+  | VInt x, VInt y => x =? y
+  | VBytes x, VBytes y => eqb_list x y
+  | VStr x, VStr y => eqb_list x y
+  | VErr x, VErr y => N.eqb x y
+  | VList x, VList y =>
+      (fix go (l m : list value) : bool :=
+         match l, m with
+         | [], [] => true
+         | p :: l', q :: m' => value_eqb p q && go l' m'
+         | _, _ => false
+         end) x y
+  | _, _ => false
+  end.
+
+Fixpoint diff_list (i : Z) (prev cur : list value) : list value :=
+  match prev, cur with
+  | p :: prev', c :: cur' => (if value_eqb p c then [] else [VList [VInt i; c]]) ++ diff_list (i + 1) prev' cur'
+  | _, _ => []
+  end.
+
+(* the snapshot relative to the previous one: register count, and the registers whose snapshot changed *)
+Definition snap_diff (prev cur : regs) : value :=
+  if Nat.eqb (length (g_regs prev)) (length (g_regs cur))
+  then VList [vnat (length (g_regs cur)); VList (diff_list 0 (snap_regs prev 0 (g_regs prev)) (snap_regs cur 0 (g_regs cur)))]
+  else VList [vnat (length (g_regs cur)); VList []; snap cur].
+
 Fixpoint trace (init g : regs) (ops : list op) : list value :=
   match ops with
   | [] => []
-  | o :: rest => let '(g', out) := step init g o in VList [out; snap g'] :: trace init g' rest
+  | o :: rest => let '(g', out) := step init g o in VList [out; snap_diff g g'] :: trace init g' rest
   end.
 
 (* ------------------------------------------------------------------ decoding of harness input *)
